@@ -379,6 +379,92 @@ def _is_surrogate_sanitiser(e) -> bool:
     return "surrogatepass" in consts and "replace" in consts and any(str(x).startswith("utf-16") for x in consts)
 
 
+SURROGATE_CODECS = {"utf_7", "unicode_escape", "raw_unicode_escape"}
+
+
+def _cp_family_safe() -> bool:
+    """No codec reachable under a name of the form cp<digits> decodes to lone surrogates (checked against the interpreter's alias table)."""
+    import encodings.aliases as _al
+    import re as _re
+
+    return not any(_re.fullmatch(r"cp_?\d+", k) and v in SURROGATE_CODECS for k, v in _al.aliases.items())
+
+
+def _codec_domain(ctx, m, fi, e, depth=0):
+    """Every value the codec-name expression can take: a set of names, with "cp*" for f"cp{...}" (a code-page number); None = unknown."""
+    if depth > 5 or e is None:
+        return None
+    v = ctx.folder.fold(m, e)
+    if isinstance(v, str):
+        return {v}
+    if isinstance(v, (tuple, list)) and v and all(isinstance(y, str) for y in v):
+        return set(v)
+    if isinstance(e, ast.JoinedStr) and e.values and isinstance(e.values[0], ast.Constant) and str(e.values[0].value).lower() == "cp" and len(e.values) == 2:
+        return {"cp*"}
+    if isinstance(e, ast.IfExp):
+        a, b = _codec_domain(ctx, m, fi, e.body, depth + 1), _codec_domain(ctx, m, fi, e.orelse, depth + 1)
+        return a | b if a is not None and b is not None else None
+    if isinstance(e, ast.BoolOp):
+        parts = [_codec_domain(ctx, m, fi, x, depth + 1) for x in e.values]
+        return set().union(*parts) if all(p is not None for p in parts) else None
+    # codecs.lookup(E).name is the canonical name of E
+    if isinstance(e, ast.Attribute) and e.attr == "name" and isinstance(e.value, ast.Call) and (dotted(e.value.func) or "") == "codecs.lookup" and e.value.args:
+        return _codec_domain(ctx, m, fi, e.value.args[0], depth + 1)
+    # self.X where X is a property of the class: its return values
+    if isinstance(e, ast.Attribute) and isinstance(e.value, ast.Name) and e.value.id == "self" and "." in fi.qual:
+        cls = m.classes.get(fi.qual.split(".")[0])
+        prop = cls.methods.get(e.attr) if cls else None
+        if prop is not None and any((dotted(d) or "") == "property" for d in prop.node.decorator_list):
+            out = set()
+            for r in [x for x in walk_own(prop.node) if isinstance(x, ast.Return)]:
+                d = _codec_domain(ctx, m, prop, r.value, depth + 1)
+                if d is None:
+                    return None
+                out |= d
+            return out or None
+        return None
+    if isinstance(e, ast.Name):
+        params = [a.arg for a in fi.node.args.posonlyargs + fi.node.args.args + fi.node.args.kwonlyargs]
+        vals = []
+        for a in walk_own(fi.node):
+            if isinstance(a, ast.Assign) and any(isinstance(t, ast.Name) and t.id == e.id for t in a.targets):
+                vals.append(a.value)
+            elif isinstance(a, ast.For) and isinstance(a.target, ast.Name) and a.target.id == e.id:
+                vals.append(a.iter)
+        if vals:
+            out = set()
+            for x in vals:
+                d = _codec_domain(ctx, m, fi, x, depth + 1)
+                if d is None:
+                    return None
+                out |= d
+            return out
+        if e.id in params:
+            # every call site of the function in its module supplies the value
+            idx = params.index(e.id)
+            bound = "." in fi.qual and params and params[0] == "self"
+            out, sites = set(), 0
+            for g in m.functions.values():
+                for c in ast.walk(g.node):
+                    if not isinstance(c, ast.Call):
+                        continue
+                    d_ = dotted(c.func) or ""
+                    if d_.split(".")[-1] != fi.name or (g is fi and False):
+                        continue
+                    k = idx - 1 if bound else idx
+                    arg = c.args[k] if 0 <= k < len(c.args) else next((kw.value for kw in c.keywords if kw.arg == e.id), None)
+                    if arg is None:
+                        return None
+                    # the argument is evaluated in the caller (a lambda's enclosing function is the caller)
+                    d = _codec_domain(ctx, m, g, arg, depth + 1)
+                    if d is None:
+                        return None
+                    out |= d
+                    sites += 1
+            return out if sites else None
+    return None
+
+
 def _declared_charset_decodes(ctx, rep):
     """A codec named by the document (meta charset, MIME charset, RFC 2047 word) may be one that decodes to lone surrogates (utf-7,
     unicode_escape, raw_unicode_escape): what it produced must pass the surrogate sanitiser before it becomes result text."""
@@ -420,7 +506,11 @@ def _declared_charset_decodes(ctx, rep):
                         domain = set(flat)
                 n += 1
                 rep.unit(fi.key)
-                if domain is not None and {d.lower() for d in domain} <= SAFE_CODECS:
+                if domain is None:
+                    domain = _codec_domain(ctx, m, fi, codec)
+                if domain is not None and "cp*" in domain and not _cp_family_safe():
+                    domain = None
+                if domain is not None and {d.lower() for d in domain} <= SAFE_CODECS | {"cp*"}:
                     rep.ok({"decode": f"{fi.qual}: {short(c, 50)}", "codec_in": sorted(domain)})
                     continue
                 # the decoded value reaches a sanitiser in this function (assignment closure over locals)
@@ -456,7 +546,18 @@ def _passes_normaliser(fi, chr_call) -> bool:
         top = top.parent
     calls = [c for c in ast.walk(top.node) if isinstance(c, ast.Call) and (dotted(c.func) or "").endswith("_combine_surrogates")]
     if not calls:
-        return False
+        # a module-level helper that only builds the string: every call of it in the module is wrapped by the normaliser
+        mod = top.module
+        if "." in top.qual:
+            return False
+        sites = [(g, c) for g in mod.functions.values() if g is not top for c in ast.walk(g.node) if isinstance(c, ast.Call) and isinstance(c.func, ast.Name) and c.func.id == top.name]
+        if not sites:
+            return False
+        for g, c in sites:
+            wraps = [w for w in ast.walk(g.node) if isinstance(w, ast.Call) and (dotted(w.func) or "").endswith("_combine_surrogates") and any(x is c for a in w.args for x in ast.walk(a))]
+            if not wraps:
+                return False
+        return True
     # direct wrap: _combine_surrogates(<expr containing the chr call>)
     for c in calls:
         if any(x is chr_call for x in ast.walk(c)):
